@@ -150,6 +150,10 @@ fn main() {
         };
         let sub = v["sub"].as_str().unwrap_or("").to_string();
         let case = v["case"].clone();
+        if case.is_null() && !matches!(sub.as_str(), "tables" | "consts") {
+            eprintln!("cannot replay {path}: the file records no case");
+            std::process::exit(2);
+        }
         let res = util::catch(|| replay_one(&prop, &sub, &case));
         let res = match res {
             Ok(r) => r,
